@@ -13,6 +13,7 @@ requests (floats as IEEE bit patterns, arrays row-major `re im …`):
   dftband m n M N Qy Qx s0 s1 <data>               dft2 only (for the energy)
   asptf m n wvl dx z                               transfer function
   asp m n wvl dx z <data>                          angular_spectrum(f, wvl, dx, z, Q=1)
+  asptfb m n <tf> <data>                           angular_spectrum(f, tf=tf)
   fftfreq n                                        fftfreq(n)·n as integers
 reply: floats (row-major re im) / integers -/
 
@@ -38,8 +39,8 @@ def step (t : List String) : String :=
     | some dir, some m, some n, some M, some N, some data =>
       match parseArr m n data with
       | some f =>
-        let e := if dir < 0 then eFwd else eInv
-        fmtArr M N (rd2 (fftRoute2 e nrmF (m, n) (M, N) (padOffset m M, padOffset n N) f))
+        let fl := if dir < 0 then focusFlagsRef else unfocusFlagsRef
+        fmtArr M N (rd2 (fftRoute2G fl eFwd nrmF (m, n) (M, N) (padOffset m M, padOffset n N) f))
       | none => "bad-op"
     | _, _, _, _, _, _ => "bad-op"
   | "pad" :: m :: n :: M :: N :: rest =>
@@ -53,7 +54,8 @@ def step (t : List String) : String :=
     match m.toNat?, n.toNat?, parseAll? parseFloatBits? rest with
     | some m, some n, some data =>
       match parseArr m n data with
-      | some f => fmtArr m n (rd2 (focusUnfocus eFwd nrmF (m, n) f))
+      | some f => fmtArr m n (rd2 (fftRoute2G unfocusFlagsRef eFwd nrmF (m, n) (m, n) (0, 0)
+          (fftRoute2G focusFlagsRef eFwd nrmF (m, n) (m, n) (0, 0) f)))
       | none => "bad-op"
     | _, _, _ => "bad-op"
   | "rtmdft" :: m :: n :: M :: N :: rest =>
@@ -61,8 +63,8 @@ def step (t : List String) : String :=
     | some m, some n, some M, some N, some (qy :: qx :: s0 :: s1 :: data) =>
       match parseArr m n data with
       | some f =>
-        fmtArr m n (mdftRoundTrip eFwd nrmF (m, n) (M, N) (alphaOf m qy) (alphaOf n qx) (alphaOf M 1.0) (alphaOf N 1.0)
-          (s0, s1) (rd2 f))
+        fmtArr m n (mdftRoundTripG (-1) true false wiringAxis0 wiringAxis1 eFwd nrmF (m, n) (M, N)
+          (alphaOf m qy) (alphaOf n qx) (alphaOf M 1.0) (alphaOf N 1.0) (s0, s1) (rd2 f))
       | none => "bad-op"
     | _, _, _, _, _ => "bad-op"
   | "dftband" :: m :: n :: M :: N :: rest =>
@@ -72,7 +74,7 @@ def step (t : List String) : String :=
       | some f =>
         let ay := alphaOf m qy
         let ax := alphaOf n qx
-        fmtArr M N (mdft2 eFwd nrmF wiringAxis0 wiringAxis1 (m, n) (M, N) ay ax ay ax (s0, s1) (rd2 f))
+        fmtArr M N (mdft2G (-1) true eFwd nrmF wiringAxis0 wiringAxis1 (m, n) (M, N) ay ax ay ax (s0, s1) (rd2 f))
       | none => "bad-op"
     | _, _, _, _, _ => "bad-op"
   | "rtczt" :: m :: n :: M :: N :: K1 :: L1 :: K2 :: L2 :: rest =>
@@ -80,22 +82,30 @@ def step (t : List String) : String :=
     | some m, some n, some M, some N, some K1, some L1, some K2, some L2, some (qy :: qx :: s0 :: s1 :: data) =>
       match parseArr m n data with
       | some f =>
-        let F := czt2 eFwd nrmF wiringAxis0 wiringAxis1 (cztGlue m M K1) (cztGlue n N L1) (m, n) (M, N) (K1, L1)
-          (alphaOf m qy) (alphaOf n qx) (s0, s1) f
-        fmtArr m n (rd2 (iczt2 Cx.conj eFwd nrmF wiringAxis0 wiringAxis1 (cztGlue M m K2) (cztGlue N n L2) (M, N) (m, n) (K2, L2)
-          (alphaOf M 1.0) (alphaOf N 1.0) (s0, s1) F))
+        let F := czt2G cztSignsRef cztStagesRef eFwd nrmF wiringAxis0 wiringAxis1 (cztGlue m M K1) (cztGlue n N L1)
+          (m, n) (M, N) (K1, L1) (alphaOf m qy) (alphaOf n qx) (s0, s1) f
+        fmtArr m n (rd2 (iczt2G Cx.conj cztSignsRef cztStagesRef eFwd nrmF wiringAxis0 wiringAxis1 (cztGlue M m K2)
+          (cztGlue N n L2) (M, N) (m, n) (K2, L2) (alphaOf M 1.0) (alphaOf N 1.0) (s0, s1) F))
       | none => "bad-op"
     | _, _, _, _, _, _, _, _, _ => "bad-op"
   | ["asptf", m, n, wvl, dx, z] =>
     match m.toNat?, n.toNat?, parseFloatBits? wvl, parseFloatBits? dx, parseFloatBits? z with
-    | some m, some n, some wvl, some dx, some z => fmtArr m n (aspTf2 eFwd (m, n) wvl dx z)
+    | some m, some n, some wvl, some dx, some z => fmtArr m n (aspTf2G aspCoefRef (-1) (-1) 0 1 eFwd (m, n) wvl dx z)
     | _, _, _, _, _ => "bad-op"
   | "asp" :: m :: n :: rest =>
     match m.toNat?, n.toNat?, parseAll? parseFloatBits? rest with
     | some m, some n, some (wvl :: dx :: z :: data) =>
       match parseArr m n data with
-      | some f => fmtArr m n (rd2 (asp eFwd (m, n) wvl dx z f))
+      | some f => fmtArr m n (rd2 (aspApplyG aspOpFlagsRef eFwd nrmF (m, n) (aspTf2G aspCoefRef (-1) (-1) 0 1 eFwd (m, n) wvl dx z) f))
       | none => "bad-op"
+    | _, _, _ => "bad-op"
+  | "asptfb" :: m :: n :: rest =>
+    -- the precomputed-`tf=` branch: first the transfer function (2mn floats), then the field (2mn floats)
+    match m.toNat?, n.toNat?, parseAll? parseFloatBits? rest with
+    | some m, some n, some data =>
+      match parseArr m n (data.take (2 * m * n)), parseArr m n (data.drop (2 * m * n)) with
+      | some tf, some f => fmtArr m n (rd2 (aspApplyG aspOpFlagsRef eFwd nrmF (m, n) (rd2 tf) f))
+      | _, _ => "bad-op"
     | _, _, _ => "bad-op"
   | ["fftfreq", n] =>
     match n.toNat? with
